@@ -41,7 +41,14 @@ tail_checked = []   # classes for which the "constant beyond U+2FFFF" side condi
 tail_inexact = []   # classes for which it fails: claim restricted to code points <= U+2FFFF
 
 
+_ASCII_CATS = {sc_.CATEGORY_SPACE: [(9, 13), (32, 32)], sc_.CATEGORY_DIGIT: [(48, 57)],
+               sc_.CATEGORY_WORD: [(48, 57), (65, 90), (95, 95), (97, 122)]}
+ASCII_MODE = [False]
+
+
 def cat_ranges(cat):
+    if ASCII_MODE[0]:
+        return list(_ASCII_CATS[cat])      # re.ASCII: \s, \d, \w are the ASCII classes
     if cat not in _cat_cache:
         rx = re.compile(_CATPAT[cat])
         rs = _ranges(lambda ch: rx.fullmatch(ch) is not None)
@@ -156,12 +163,19 @@ def tr(seq):
 
 def compile_lang(pattern: str, mode="match", flags=0):
     """z3 regex R such that re.<mode>(pattern, s) is not None  <=>  s in R."""
-    if flags:
-        raise Unsupported("regex flags")
-    p = sp.parse(pattern)
-    if p.state.flags & ~re.UNICODE:
+    if flags & ~(re.ASCII | re.UNICODE):
+        raise Unsupported("regex flags other than re.ASCII")
+    p = sp.parse(pattern, flags)
+    if p.state.flags & ~(re.UNICODE | re.ASCII):
         raise Unsupported("regex flags in pattern")
-    seq = list(p)
+    ASCII_MODE[0] = bool(p.state.flags & re.ASCII)
+    try:
+        return _compile_seq(list(p), mode)
+    finally:
+        ASCII_MODE[0] = False
+
+
+def _compile_seq(seq, mode):
     begin = False
     if seq and seq[0] in ((sc_.AT, sc_.AT_BEGINNING), (sc_.AT, sc_.AT_BEGINNING_STRING)):
         seq = seq[1:]
